@@ -93,6 +93,8 @@ end Lists
 structure FieldS where
   name : Str            -- `field_pb.name`
   required : Bool       -- REQUIRED ∈ `google.api.field_behavior`
+  number : Nat := 0     -- `field_pb.number`: independent data; NO function of this model reads it
+                        -- (`input.fields` is in DECLARATION order, whatever the numbers are)
 deriving Repr, DecidableEq
 
 structure MethodS where
